@@ -18,5 +18,5 @@ git stash pop -q
 echo "== property check on /repo WITH change"
 git -C /repo apply /verif/seeded/$name/patch.diff || exit 3
 cd /verif && ./check $id | grep -v KNOWN-FINDING | cut -c1-220
-git -C /repo checkout -- . 
+git -C /repo apply -R /verif/seeded/$name/patch.diff
 git -C /repo status --short | head -3
